@@ -183,6 +183,26 @@ class is_flag_active_visitor<Flag, flag_and>""")]),
                 target.forward_event(*sm.m_root_sm, event);
             }
             target.on_entry(event, fsm);""")]),
+ dict(name='region-back11-fork-first-region', prop='C09', rule='C09.region', edits=[(B11, """                 helper_self->m_states[find_region_id<typename StateType::wrapped_entry>::region_index] = state_id;""",
+      """                 helper_self->m_states[find_region_id<typename ::boost::mpl::front<typename EventType::active_state>::type::wrapped_entry>::region_index] = state_id;""")]),
+ dict(name='wrap-back11-row-plain-entry', prop='C09', rule='C09.wrap', edits=[(B11, """            convert_event_and_execute_entry<next_state_type,T2>
+                (::boost::fusion::at_key<next_state_type>(fsm.m_substate_list),evt,fsm);""", """            execute_entry<next_state_type>
+                (::boost::fusion::at_key<next_state_type>(fsm.m_substate_list),evt,fsm);""")]),
+ dict(name='seqadvance-mp11-not-for-submachine', prop='C05', rule='C05.seq-advance', edits=[(MP, """                get_event_pool().cur_seq_cnt += 1;
+            }
+        }
+        else""", """                if (info != process_info::submachine_call) get_event_pool().cur_seq_cnt += 1;
+            }
+        }
+        else""")]),
+ dict(name='completion-arm-back11-not-from-queue', prop='C10', rule='C10.first', edits=[(B11, """eventless_helper(this,(::boost::msm::back::HANDLED_TRUE & handled));""",
+      """eventless_helper(this,(::boost::msm::back::HANDLED_TRUE & handled) && !(::boost::msm::back::EVENT_SOURCE_MSG_QUEUE & source));""")]),
+ dict(name='visitref-back11-composite-by-value', prop='C03', rule='C03.visit-ref', edits=[(B11, """#define MSM_COMPOSITE_ACCEPT_SUB2(z, n, unused) boost::ref( vis ## n )""", """#define MSM_COMPOSITE_ACCEPT_SUB2(z, n, unused) vis ## n""")]),
+ dict(name='visitorder-mp11-reverse-regions', prop='C03', rule='C03.visit-order', edits=[('include/boost/msm/backmp11/detail/state_visitor.hpp', """                for (const auto active_state_id : sm.m_active_state_ids)
+                {""", """                for (auto it = sm.m_active_state_ids.rbegin(); it != sm.m_active_state_ids.rend(); ++it)
+                {
+                    const auto active_state_id = *it;""")]),
+ dict(name='stablesort-back11-sort', prop='C05', rule='C04.queue-ops', edits=[(B11, """                std::stable_sort(""", """                std::sort(""")]),
  # ---- behaviour-preserving edits: the checks must stay silent
  dict(name='refactor-rename-local', prop='C02', refactor=True, edits=[(B, """            HandledEnum res = ROW::action_call(fsm,evt,
                              ::boost::fusion::at_key<current_state_type>(fsm.m_substate_list),
@@ -231,4 +251,13 @@ class is_flag_active_visitor<Flag, flag_and>""")]),
  dict(name='refactor-flag-helper-inline', prop='C04', refactor=True, edits=[(B, """            do_allow_event_processing_after_transition(
                 ::boost::mpl::bool_<is_no_message_queue<library_sm>::type::value>());""", """            // flag handling inlined
             if (!is_no_message_queue<library_sm>::type::value) { m_event_processing = false; }""")]),
+ dict(name='refactor-visit-index-loop', prop='C03', refactor=True, edits=[('include/boost/msm/backmp11/detail/state_visitor.hpp', """                for (const auto active_state_id : sm.m_active_state_ids)
+                {""", """                for (size_t region = 0; region < sm.m_active_state_ids.size(); ++region)
+                {
+                    const auto active_state_id = sm.m_active_state_ids[region];""")]),
+ dict(name='refactor-completion-arm-local', prop='C10', refactor=True, edits=[(B, """                eventless_helper(this,(HANDLED_TRUE & handled));""", """                eventless_helper(this,step_handled);"""),
+      (B, """            // Process completion transitions BEFORE any other event in the
+            // pool (UML Standard 2.3 15.3.14)
+            handle_eventless_transitions_helper<library_sm>""", """            const bool step_handled = (handled & HANDLED_TRUE) != 0;
+            handle_eventless_transitions_helper<library_sm>""")]),
 ]
